@@ -62,6 +62,7 @@ pub struct Monitors {
     pub anchors: crate::anchors::AnchorState,
     pub events: crate::eventsmon::EventsState,
     pub undo: Option<crate::undomon::UndoState>,
+    pub sticky: crate::stickymon::StickyState,
 }
 
 impl Monitors {
@@ -98,6 +99,7 @@ impl Monitors {
             anchors: Default::default(),
             events: Default::default(),
             undo: None,
+            sticky: Default::default(),
         }
     }
 }
